@@ -270,32 +270,9 @@ Proof.
     specialize (fle_ssize _ _ 1 Hf eq_refl). vm_compute. discriminate.
 Qed.
 
-(* struct N:  0 [+1] UInt a ;  [byte_order: Null] 1 [+1] UInt b *)
-Definition m_null : module :=
-  [mk_sdef 8 0%nat
-     [mk_field ktrue (Phys (kz 0) (kz 1) (FScalar KU 8 LE) None);
-      mk_field ktrue (Phys (kz 1) (kz 1) (FScalar KU 8 NullBO) None);
-      size_virt [(ktrue, kz 0, kz 1); (ktrue, kz 1, kz 1)]]
-     [0; 1; 2]%nat 2%nat None].
-
-Theorem prefix_stable_refuted_null_order :
-  exists m d ps fuel bytes extra,
-    In d m /\
-    let r := eval_struct m bytes fuel d ps true (root bytes) in
-    let r' := eval_struct m (bytes ++ extra) fuel d ps true (root (bytes ++ extra)) in
-    (exists f f', nth_error (fr_sub r) 1 = Some (Some f) /\ nth_error (fr_sub r') 1 = Some (Some f') /\
-                  fr_has f = Some true /\ fr_ok f = true /\ fr_ok f' = true /\
-                  fr_val f = Some (VInt 0) /\ fr_val f' = Some (VInt 9)) /\   (* b().Read() changes *)
-    ~ prefix_stable_at m d ps fuel bytes extra.
-Proof.
-  exists m_null, (nth 0 m_null (mk_sdef 8 0 [] [] 0 None)), [], 8%nat, [5], [9].
-  split; [left; reflexivity|]. split.
-  - eexists; eexists. vm_compute. repeat split; reflexivity.
-  - unfold prefix_stable_at. intros H.
-    destruct (fle_sub_nth _ _ 1%nat _ H ltac:(vm_compute; reflexivity)) as (f' & Hn & Hf).
-    vm_compute in Hn. inversion Hn; subst f'; clear Hn.
-    destruct (fle_ok _ _ Hf eq_refl) as [_ Hv]. vm_compute in Hv. discriminate.
-Qed.
+(* (The Null-byte-order refutation that stood here described the runtime before fix c90547c:
+   NullByteOrderer::SizeInBytes() ignored the buffer size.  The model now follows the repaired
+   runtime; [wf_stable] still excludes NullBO, which is stronger than needed.) *)
 
 (* struct P(k: UInt:8):  0 [+1] UInt a
    struct O:  0 [+1] UInt n ;  1 [+n] P(n) p      -- p().has_k() *)
